@@ -141,14 +141,21 @@ def gen_plan(rng):
             for s in rng.sample(keys, min(len(keys), rng.randint(1, 3))):
                 ss.append(s)
                 v = rng.random()
-                if v < 0.25:
+                if v < 0.2:
                     ss.append(s.upper())
-                elif v < 0.4:
+                elif v < 0.3:
                     ss.append(s + " ")
+                elif v < 0.45 and len(s) > 4:
+                    cut = rng.choice((len(s) - 2, len(s) // 2, 1))
+                    ss.append(s[:cut] + " " + s[cut:])     # blank inside
                 elif v < 0.5:
+                    ss.append(s.capitalize())
+                elif v < 0.56:
                     ss.append("")
-                elif v < 0.55:
+                elif v < 0.6:
                     ss.append(None)
+                if rng.random() < 0.3:
+                    ss.reverse()
             prior.append({"o": "prewarm", "strings": ss,
                           "via": rng.choice(("TRS", "Tract", "TRSList"))})
         elif k == "cache":
@@ -180,8 +187,12 @@ def gen_plan(rng):
     between = None
     if rng.random() < 0.1:
         between = {"ns": rng.choice(("s", "n")), "ew": rng.choice(("e", "w"))}
+    # A few runs sweep an interrupt over EVERY traced line of one prior call
+    # that is identical to the first probe call (so that it touches the same
+    # process-global keys), instead of sampling one position.
+    sweep = rng.random() < 0.012
     return {"machine": NAME, "prior": prior, "probe": probe,
-            "mc_between": between}
+            "mc_between": between, "sweep": sweep}
 
 
 # --------------------------------------------------------------------------
@@ -384,6 +395,9 @@ def run(prior, probe, mc_between=None, with_prior=True, mc_script=None):
     steps = 0
     pending_interrupt = None
     mc_changes = 0
+    plan_mc = list(orig_mc)      # what the plan's own mc_set/mc_restore ops
+    #                              put in force -- never read back from pytrs
+    mc_leaks = []
 
     def bump(k, v=1):
         fired[k] = fired.get(k, 0) + v
@@ -434,9 +448,11 @@ def run(prior, probe, mc_between=None, with_prior=True, mc_script=None):
                             bump("cache_" + op["do"])
                 elif o == "mc_set":
                     MC.default_ns, MC.default_ew = op["ns"], op["ew"]
+                    plan_mc = [op["ns"], op["ew"]]
                     mc_changes += 1
                 elif o == "mc_restore":
                     MC.default_ns, MC.default_ew = orig_mc
+                    plan_mc = list(orig_mc)
                     mc_changes += 1
                 elif o == "mutate":
                     if pool:
@@ -473,6 +489,14 @@ def run(prior, probe, mc_between=None, with_prior=True, mc_script=None):
                 bump("interrupt_fired")
             except Exception as e:  # noqa - prior activity may fail; that is allowed
                 bump("prior_op_raised")
+            # the library itself never writes MasterConfig: whatever ran
+            # (completed, failed or interrupted), the values in force are
+            # the ones the caller put there
+            if _mc(pytrs) != plan_mc:
+                mc_leaks.append({"prior_index": steps - 1, "op": op,
+                                 "expected": list(plan_mc),
+                                 "found": _mc(pytrs)})
+                MC.default_ns, MC.default_ew = plan_mc
 
     # ---- state probes at probe time
     state = {}
@@ -486,24 +510,31 @@ def run(prior, probe, mc_between=None, with_prior=True, mc_script=None):
     state["cache_disabled"] = int(getattr(pytrs.TRS, "_USE_CACHE", True) is False)
     state["uid"] = getattr(pytrs.Tract, "_Tract__UID", -1)
     state["mc_changes"] = mc_changes
-    state["mc_at_probe"] = _mc(pytrs)
+    state["mc_at_probe"] = list(plan_mc)
 
     # ---- the probe
     outcomes, mc_log = [], []
     for j, op in enumerate(probe):
         if not with_prior and mc_script is not None:
-            MC.default_ns, MC.default_ew = mc_script[j][0]
-        first = _mc(pytrs)
+            # The reference evaluates a two-step probe (create waiting, then
+            # parse / set_twprgesec) entirely under the values in force at
+            # its *second* step: what the call returns may depend only on
+            # the defaults in force at the time of that call.
+            MC.default_ns, MC.default_ew = \
+                mc_script[j][1] or mc_script[j][0]
+        first = list(plan_mc) if with_prior else _mc(pytrs)
         second = [None]
 
         def hook():
+            nonlocal plan_mc
             if with_prior:
                 if mc_between is not None:
                     MC.default_ns, MC.default_ew = \
                         mc_between["ns"], mc_between["ew"]
-            elif mc_script is not None and mc_script[j][1] is not None:
-                MC.default_ns, MC.default_ew = mc_script[j][1]
-            second[0] = _mc(pytrs)
+                    plan_mc = [mc_between["ns"], mc_between["ew"]]
+                second[0] = list(plan_mc)
+            else:
+                second[0] = _mc(pytrs)
 
         steps += 1
         try:
@@ -513,7 +544,8 @@ def run(prior, probe, mc_between=None, with_prior=True, mc_script=None):
             outcomes.append({"raised": type(e).__name__})
         mc_log.append([first, second[0]])
     return {"outcomes": outcomes, "mc_log": mc_log, "state": state,
-            "fired": fired, "isolation": isolation, "steps": steps}
+            "fired": fired, "isolation": isolation, "steps": steps,
+            "mc_leaks": mc_leaks}
 
 
 def _shares_tracts(pytrs, obj, src):
@@ -530,11 +562,58 @@ def _shares_tracts(pytrs, obj, src):
     return any(x is y for x in a for y in b)
 
 
+SWEEP_MAX = 160
+
+
+def _count_lines(probe_op):
+    from ..interrupt import LineCounter
+    pytrs = ensure_repo_on_path()
+    with LineCounter(REPO) as lc:
+        try:
+            _run_probe_op(pytrs, probe_op)
+        except Exception:  # noqa
+            pass
+    return lc.count
+
+
+def _sweep(plan, bump):
+    """Interrupt a prior copy of the first probe call at every traced line."""
+    target = plan["probe"][0]
+    n_lines = fork_call(_count_lines, (target,))
+    bump("sweep_runs")
+    bump("sweep_lines_total", n_lines)
+    found = []
+    stride = max(1, -(-n_lines // SWEEP_MAX))
+    if stride > 1:
+        bump("sweep_strided")
+    for n in range(1, n_lines + 1, stride):
+        derived = {"machine": NAME,
+                   "prior": list(plan["prior"]) + [
+                       {"o": "interrupt", "at": n},
+                       {"o": "other", "probe": copy.deepcopy(target)}],
+                   "probe": plan["probe"], "mc_between": plan.get("mc_between"),
+                   "sweep": False}
+        res = check_plan(derived)
+        bump("sweep_positions")
+        if res["stats"].get("interrupt_fired"):
+            bump("sweep_interrupts_fired")
+        for f in res["failures"]:
+            f = dict(f)
+            f["plan_override"] = derived
+            found.append(f)
+        if found:
+            break
+    return found
+
+
 def check_plan(plan):
     failures, stats = [], {}
 
     def bump(k, v=1):
         stats[k] = stats.get(k, 0) + v
+
+    if plan.get("sweep"):
+        failures += _sweep(plan, bump)
 
     main = fork_call(run, (plan["prior"], plan["probe"], plan.get("mc_between"),
                            True, None))
@@ -550,6 +629,11 @@ def check_plan(plan):
                            "pristine": excerpt(b, path),
                            "mc_in_force": main["mc_log"][j],
                            "state": main["state"]}})
+    for leak in main["mc_leaks"][:1]:
+        failures.append({
+            "oracle": "masterconfig_written_by_library",
+            "path": "MasterConfig", "path_class": "MasterConfig",
+            "detail": leak})
     for iso in main["isolation"]:
         failures.append({
             "oracle": "isolation", "path": iso["path"],
@@ -663,6 +747,10 @@ def shrink(plan):
     if plan.get("mc_between"):
         p2 = copy.deepcopy(plan)
         p2["mc_between"] = None
+        yield p2
+    if plan.get("sweep"):
+        p2 = copy.deepcopy(plan)
+        p2["sweep"] = False
         yield p2
     for k, op in enumerate(prior):
         if op["o"] == "prewarm" and len(op["strings"]) > 1:
